@@ -5,6 +5,7 @@
                                     and X0 X1 (dt attached to ANOTHER zone + tz): exists,ambiguous
     tzhelp.fixed <name hex|-> <num|td> <seconds> [t…]    tzoffset(name, offset): offset,dst,name,amb then fromutc walls; eq table
     tzhelp.utc [t…]                 tzutc: the same
+    tzhelp.local <time.timezone> <time.altzone> <time.daylight> <tzname[0] hex> <tzname[1] hex>    tzlocal(): fields, eq row, class facts
 -/
 import DateutilVerif.Ops.Zones
 import DateutilVerif.Generated.TzHelpKernels
@@ -70,6 +71,17 @@ def handle (op : String) (args : List String) : Option String :=
       let fu := " ".intercalate (ts.map fun t => showRDt (Gen.tzutc_fromutc (d t)))
       let eqs := ",".intercalate (others.map fun o => showTri (Gen.tzutc_eq o))
       pure s!"ok {head} {fu} {eqs} {showBool Gen.tzutc_hashIsNone}{showBool Gen.tzutc_reduceIsObjectReduce}{showBool Gen.tzutc_neIsNotEq}"
+  | "tzhelp.local", [tzn, alt, dl, n0, n1] => do
+      let tzn ← parseInt? tzn; let alt ← parseInt? alt; let dl ← parseInt? dl
+      let n0 ← parseHexString? n0; let n1 ← parseHexString? n1
+      pure (match Gen.tzlocal_init ⟨tzn, alt, dl, (n0, n1)⟩ with
+        | .error e => err e
+        | .ok z =>
+          let others : List Fact.Zone := [.utc, .offset n0 z.stdOffset, .offset "Q" z.stdOffset, .offset n0 (z.stdOffset + 1),
+            .loc z.stdOffset z.dstOffset z.hasdst n0, .loc (z.stdOffset + 60) z.dstOffset false n0, .file 0]
+          s!"ok {z.stdOffset},{z.dstOffset},{z.dstSaved},{showBool z.hasdst},{showHexString z.tznames.1},{showHexString z.tznames.2} " ++
+            ",".intercalate (others.map fun o => showTri (Gen.tzlocal_eq z o)) ++
+            s!" {showBool Gen.tzlocal_hashIsNone}{showBool Gen.tzlocal_reduceIsObjectReduce}{showBool Gen.tzlocal_neIsNotEq}")
   | _, _ => none
 
 end Ops.TzHelpGen
